@@ -14,7 +14,11 @@
             C16_paint_order_spec excludes this for well-formed trees,
           6 implementation = model = that specification, but the order of the
             fills and texts differs from Appendix E with CSS's own notion of
-            stacking context (overflow != visible does not form one),
+            stacking context (overflow != visible does not form one); reported
+            as 6 only when the tree contains an overflow != visible box that
+            is not a CSS stacking context AND the two orders agree once the
+            events of the sub-trees of those boxes are deleted from both,
+          9 otherwise (a deviation from Appendix E not confined to overflow boxes),
           8 one of the statements of Properties/C16.v that are proved only in part
             (every event at most once, nothing of a box after its outline and
             content after border, the events of a sub-tree all inside the
@@ -164,6 +168,12 @@ Fixpoint bracket_exact (roots : list box) (before l : list event) : bool :=
   | x :: r => bracket_exact roots (before ++ [x]) r
   end.
 
+(* boxes with overflow != visible that are not stacking contexts for CSS (C16_overflow_only_difference:
+   without them Appendix E with the implementation's contexts = Appendix E with CSS's): the ids of their sub-trees *)
+Definition noncss_clip (i : binfo) : bool := bclip i && negb (css_forms_ctx i).
+Fixpoint clip_ids (b : box) : list N :=
+  match b with Box i cs => if noncss_clip i then all_ids b else flat_map clip_ids cs end.
+
 Definition statements_hold (pi : binfo) (canvas : N) (roots : list box) : bool :=
   if negb (nodupN (bid pi :: flat_map all_ids roots)) then true
   else match paint_page pi canvas roots with
@@ -180,12 +190,30 @@ Definition check (c : case) : N :=
                      else if negb (events_eqb evs impl) then 1%N
                      else if negb (events_eqb (spec_events c) impl) then 5%N
                      else if negb (statements_hold pi canvas roots) then 8%N
-                     else if negb (events_eqb (strict_events c) (filter no_clip impl)) then 6%N
+                     else if negb (events_eqb (strict_events c) (filter no_clip impl)) then
+                            (* the deviation from CSS's own stacking contexts is attributed to the overflow boxes
+                               only if (a) the tree has an overflow != visible box that CSS does not make a
+                               stacking context and (b) outside the sub-trees of those boxes the two orders agree *)
+                            let cl := flat_map clip_ids roots in
+                            let out := fun e => negb (memN (event_id e) cl) in
+                            if match cl with [] => false | _ => true end
+                               && events_eqb (filter out (strict_events c)) (filter out (filter no_clip impl))
+                            then 6%N else 9%N
                      else if negb (forallb wf_shape roots) then 7%N
                      else 0%N
          | _ => if crashed then 0%N else 3%N
          end
   end.
+
+(* ---- source-level tie (go/cmd/c16/sortscan): the calls of sorting functions
+   on the z-index lists of html/document/stacking.go.  The theorems take the
+   sort as ANY function meeting sort.SliceStable's contract; the obligation
+   generated on every run is `sort_sites_ok sites = true`: every such call is
+   a sort whose documented contract includes stability (s_list, informational:
+   bit 0 negativeZContexts, bit 1 positiveZContexts; a list that is not sorted
+   at all, or sorted by hand-written code, is the runtime stream's business). ---- *)
+Record sort_site := mkSite { s_line : N; s_stable : bool; s_list : N }.
+Definition sort_sites_ok (l : list sort_site) : bool := forallb s_stable l.
 
 Fixpoint mismatches (i : N) (cs : list case) : list (N * N) :=
   match cs with
